@@ -265,6 +265,79 @@ fn history(h: &[(usize, usize)], out: &mut Partial) {
     }
 }
 
+/// A network of `m` peers (1 or 2) and lookups whose target IS a peer's id: the closest set of
+/// such a lookup can consist of nodes at distance zero only. Counters after every step as in
+/// `history`.
+fn target_is_a_peer(m: usize, ops: &[usize], out: &mut Partial) {
+    let mut w = World::new(Chooser::default_run());
+    let own: Id20 = [0x21; 20];
+    let mut base = [0x77u8; 20];
+    base[0] = 0xD0;
+    let ids: Vec<Id20> = (0..m)
+        .map(|i| {
+            // the second peer shares its first 16 bytes with the first one
+            let mut id = base;
+            id[19] ^= i as u8;
+            id
+        })
+        .collect();
+    let mut net = EpNet::new(&mut w, &ids);
+    let boots = net.addrs()[..1].to_vec();
+    let a = w.add_node(NodeCfg::new([9, 9, 9, 9], 7000).bootstrap(&boots).id(own));
+    let pump = |w: &mut World, net: &mut EpNet, ev: &Event| {
+        if let Event::EndpointRecv { ep, dgram } = ev {
+            net.handle(w, *ep, dgram);
+        }
+    };
+    let hz = w.now + 3 * SEC;
+    w.run_until(hz, |w, ev| {
+        pump(w, &mut net, ev);
+        false
+    });
+    let target = ids[0];
+    let mut scale = 0f64;
+    let mut problems: Vec<(String, String)> = vec![];
+    for (step, op) in ops.iter().enumerate() {
+        let call = match op {
+            0 => w.call_find_node(a, target.into()),
+            1 => w.call_get_closest_nodes(a, target.into()),
+            2 => w.call_get_peers(a, target.into()),
+            _ => w.call_get_signed_peers(a, target.into()),
+        };
+        let hz = w.now + 60 * SEC;
+        w.run_until(hz, |w, ev| {
+            pump(w, &mut net, ev);
+            w.result(call).is_some()
+        });
+        w.run_for(SEC);
+        let snap = w.snapshot(a);
+        for t in [&snap.core.routing_table, &snap.core.signed_peers_routing_table] {
+            for (name, x) in [("dht_size_estimates_sum", t.dht_size_estimates_sum), ("responders_size_estimates_sum", t.responders_size_estimates_sum)] {
+                if !x.is_finite() {
+                    problems.push((format!("counter-not-finite/{name}"), format!("after step {}: {name} = {x}", step + 1)));
+                }
+            }
+        }
+        for (k, d) in stats_problems(&snap, &mut scale) {
+            problems.push((k, format!("after step {}: {d}", step + 1)));
+        }
+        if !problems.is_empty() {
+            break;
+        }
+    }
+    out.add("executions", 1);
+    out.add("transitions", w.steps);
+    out.add("target_is_a_peer_histories", 1);
+    let names: Vec<&str> = ops.iter().map(|o| ["find_node", "get_closest_nodes", "get_peers", "get_signed_peers"][*o]).collect();
+    let mut seen = std::collections::BTreeSet::new();
+    for (k, d) in problems {
+        let key = format!("stats/{k}/target-is-a-peer-id/{m}-peer-network");
+        if seen.insert(key.clone()) {
+            out.violation(key, format!("network of {m} peer(s), lookups {names:?} of the id of a peer: {d}"), json!({"part": "peer-target", "m": m, "ops": ops}));
+        }
+    }
+}
+
 /// 3 virtual hours of refreshes on a real node, stats checked at every 5-minute boundary.
 fn long_run(out: &mut Partial) {
     let mut w = World::new(Chooser::default_run());
@@ -462,6 +535,16 @@ fn run(tier: Tier, shard: usize, nshards: usize, _seed: u64) -> Partial {
             }
         }
     }
+    // (c'') lookups whose target is the id of a peer, in networks of one and two peers
+    for m in [1usize, 2] {
+        for c in 0..4usize.pow(3) {
+            if !mine() {
+                continue;
+            }
+            let ops: Vec<usize> = (0..3).map(|i| (c / 4usize.pow(i as u32)) % 4).collect();
+            super::guard_dead_actor(&mut out, "peer-target", json!({"part": "peer-target", "m": m, "ops": ops}), |out| target_is_a_peer(m, &ops, out));
+        }
+    }
     out.witness("quiescent snapshots were taken", out.count("quiescent_snapshots") > 0);
     out.witness("consistent histories exist", out.count("consistent_histories") > 0 || shard > 2);
     out.sample(json!({"part": "c", "history": ["find_node(own)", "get_peers(t1)", "find_node(own)"]}));
@@ -484,6 +567,10 @@ fn replay(v: &Value) -> Result<Option<Violation>, String> {
         Some("c") => {
             let h: Vec<(usize, usize)> = v.get("history").and_then(|h| h.as_array()).ok_or("history")?.iter().filter_map(|p| Some((p.get(0)?.as_u64()? as usize, p.get(1)?.as_u64()? as usize))).collect();
             history(&h, &mut out);
+        }
+        Some("peer-target") => {
+            let ops: Vec<usize> = v.get("ops").and_then(|o| o.as_array()).ok_or("ops")?.iter().filter_map(|x| x.as_u64().map(|x| x as usize)).collect();
+            target_is_a_peer(v.get("m").and_then(|m| m.as_u64()).unwrap_or(1) as usize, &ops, &mut out)
         }
         Some("long") => long_run(&mut out),
         Some("roll") => cache_roll(&mut out),
